@@ -169,6 +169,8 @@ def equivariance(ck, RULE, I, name, r1, entry):
                 outs = [v]
             outs = [I.snapshot(o, r1.st) for o in outs]
             for o in outs:
+                lc.collect_matrix_evidence(o)
+            for o in outs:
                 lc.of(o)
             if name.startswith("RegionGeom") or name.startswith("RegionGeomToO"):
                 # attributes written by the call are per-thrown-event arrays as well
